@@ -17,6 +17,16 @@ pub(crate) fn eat_whitespace_and_commas(input: &[u8], inposp: &mut usize) {
     }
 }
 
+/// The input byte at `pos`, or an error if the input ends before it
+#[inline]
+pub(crate) fn peek(input: &[u8], pos: usize) -> Result<u8, Error> {
+    if pos >= input.len() {
+        Err(InnerError::JsonBad("Too short", pos).into())
+    } else {
+        Ok(input[pos])
+    }
+}
+
 /// Verify the next input character is as specified and move inposp past it
 #[inline]
 pub fn verify_char(input: &[u8], ch: u8, inposp: &mut usize) -> Result<(), Error> {
@@ -180,11 +190,11 @@ pub(crate) fn read_tags_array(
         eat_whitespace(input, inposp);
 
         // Check what is next
-        match input[*inposp] {
+        match peek(input, *inposp)? {
             b']' => {
                 *inposp += 1;
                 if tag_num != num_tags - 1 {
-                    panic!("Tag count mismatch");
+                    return Err(InnerError::JsonBad("Tag count mismatch", *inposp).into());
                 }
                 break;
             }
@@ -194,7 +204,7 @@ pub(crate) fn read_tags_array(
                 verify_char(input, b'[', inposp)?;
                 tag_num += 1;
                 if tag_num >= num_tags {
-                    panic!("Tag count mismatch");
+                    return Err(InnerError::JsonBad("Tag count mismatch", *inposp).into());
                 }
                 eat_whitespace(input, inposp);
             }
@@ -213,7 +223,7 @@ pub(crate) fn read_tags_array(
 // This does a quicker pass over the content than actual tag parsing does.
 pub(crate) fn count_tags(input: &[u8], mut inpos: usize) -> Result<usize, Error> {
     // First non-whitespace character after the opening brace
-    match input[inpos] {
+    match peek(input, inpos)? {
         b']' => return Ok(0), // no tags
         b'[' => (),           // expected
         _ => return Err(InnerError::JsonBad("Tag array bad initial character", inpos).into()),
@@ -225,7 +235,7 @@ pub(crate) fn count_tags(input: &[u8], mut inpos: usize) -> Result<usize, Error>
     eat_whitespace(input, &mut inpos);
 
     loop {
-        match input[inpos] {
+        match peek(input, inpos)? {
             b']' => return Ok(count),
             b',' => {
                 inpos += 1;
@@ -250,7 +260,7 @@ pub(crate) fn read_tag(
     *outposp += 2;
 
     // handle empty tag
-    if input[*inposp] == b']' {
+    if peek(input, *inposp)? == b']' {
         *inposp += 1;
         put(output, countpos, 0_u16.to_ne_bytes().as_slice())?;
 
@@ -268,10 +278,11 @@ pub(crate) fn read_tag(
         // bump the outposp past it
         *outposp += 2 + outlen;
         // bump the inpos past the string (and the ending quote which isn't counted in the len)
-        *inposp += inlen + 1;
+        *inposp += inlen;
+        verify_char(input, b'"', inposp)?;
 
         eat_whitespace(input, inposp);
-        match input[*inposp] {
+        match peek(input, *inposp)? {
             b',' => {
                 *inposp += 1;
                 eat_whitespace(input, inposp);
@@ -307,7 +318,8 @@ pub(crate) fn read_content(
 
     // Place content 4 bytes beyond tags, to reserve space for content length
     let (inlen, outlen) = json_unescape(&input[*inposp..], &mut output[after_tags + 4..])?;
-    *inposp += inlen + 1; // +1 to pass the end quote
+    *inposp += inlen;
+    verify_char(input, b'"', inposp)?; // pass the end quote
 
     // Write content length
     put(output, after_tags, (outlen as u32).to_ne_bytes().as_slice())?;
@@ -345,7 +357,7 @@ pub(crate) fn burn_string(input: &[u8], inposp: &mut usize) -> Result<(), Error>
             *inposp += 1;
         }
     }
-    if input[*inposp] == b'"' {
+    if *inposp < input.len() && input[*inposp] == b'"' {
         *inposp += 1;
         Ok(())
     } else {
@@ -358,14 +370,14 @@ pub(crate) fn burn_string(input: &[u8], inposp: &mut usize) -> Result<(), Error>
 pub(crate) fn burn_tag(input: &[u8], inposp: &mut usize) -> Result<(), Error> {
     eat_whitespace(input, inposp);
     // handle empty tag
-    if input[*inposp] == b']' {
+    if peek(input, *inposp)? == b']' {
         *inposp += 1;
         return Ok(());
     }
     verify_char(input, b'"', inposp)?;
     burn_string(input, inposp)?;
     eat_whitespace(input, inposp);
-    while input[*inposp] == b',' {
+    while peek(input, *inposp)? == b',' {
         *inposp += 1;
         eat_whitespace(input, inposp);
         verify_char(input, b'"', inposp)?;
@@ -391,7 +403,7 @@ pub(crate) fn burn_object(input: &[u8], inposp: &mut usize) -> Result<(), Error>
         eat_whitespace_and_commas(input, inposp);
 
         // Check for the end
-        if input[*inposp] == b'}' {
+        if peek(input, *inposp)? == b'}' {
             *inposp += 1;
             return Ok(());
         }
@@ -407,7 +419,7 @@ pub(crate) fn burn_array(input: &[u8], inposp: &mut usize) -> Result<(), Error> 
         eat_whitespace_and_commas(input, inposp);
 
         // Check for the end
-        if input[*inposp] == b']' {
+        if peek(input, *inposp)? == b']' {
             *inposp += 1;
             return Ok(());
         }
